@@ -7,7 +7,6 @@
 package main
 
 import (
-	"runtime/debug"
 	"bytes"
 	"encoding/json"
 	"flag"
@@ -17,6 +16,7 @@ import (
 	"os/exec"
 	"path/filepath"
 	"regexp"
+	"runtime/debug"
 	"strconv"
 	"strings"
 	"time"
